@@ -49,6 +49,7 @@ CONSTANTS Layouts,      \* sequence of [id, codec, atoms, bad, at] : the frames 
           RecordHist    \* TRUE: keep the history of pieces (behaviour generation); FALSE: model checking
 
 VARIABLES frames,       \* the encoded message sequence: indices into Layouts          (constant in a behaviour)
+          ends,         \* ends[k] = offset of the end of frame k                      (constant in a behaviour)
           maxp,         \* largest piece the reader delivers in this behaviour          (constant in a behaviour)
           delivered,    \* bytes handed to the buffer so far
           consumed,     \* bytes the decoder has advanced over
@@ -59,7 +60,7 @@ VARIABLES frames,       \* the encoded message sequence: indices into Layouts   
           hist,         \* history: the pieces delivered (hidden by the VIEW)
           lastAct       \* the call just made with its answer (hidden by the VIEW)
 
-vars == <<frames, maxp, delivered, consumed, fi, ai, ao, emitted, mode, synced, hist, lastAct>>
+vars == <<frames, ends, maxp, delivered, consumed, fi, ai, ao, emitted, mode, synced, hist, lastAct>>
 View == <<frames, maxp, delivered, consumed, fi, ai, ao, emitted, mode, synced>>
 
 FrameLen(L) == AtomsLen(L.atoms, Len(L.atoms))
@@ -80,7 +81,11 @@ Of(c) == {i \in 1..Len(Layouts) : Layouts[i].codec = c}
 \* message sequences of one codec pair, at most one corrupted frame
 Sequences == UNION { { s \in [1..n -> Of(c)] : NumBad(s) <= 1 } : n \in 1..MaxFrames, c \in Codecs }
 
+EndAt(k) == IF k = 0 THEN 0 ELSE IF k > Len(ends) THEN ends[Len(ends)] ELSE ends[k]
+TotalLen == ends[Len(ends)]
+
 Init == /\ frames \in Sequences
+        /\ ends = [k \in 1..Len(frames) |-> End(frames, k)]
         /\ maxp \in PieceBounds
         /\ delivered = 0 /\ consumed = 0
         /\ fi = 1 /\ ai = 1 /\ ao = 0
@@ -94,33 +99,31 @@ Init == /\ frames \in Sequences
 (* frame with the bytes that are buffered.                                  *)
 Avail == delivered - consumed
 Cur == Layouts[frames[fi]]
-Step(x) == Run(Cur.atoms, ai, ao, Avail, 0, x, Cur.bad, Cur.at)
+Step == Run(Cur.atoms, ai, ao, Avail, 0, Cur.bad, Cur.at)
 
-\* the nondeterministic amount x only matters if the call stops inside a streamed atom
-Choice(x) == LET r == Step(x) IN IF r.ux THEN x <= r.avs ELSE x = 0
-
-Keep == UNCHANGED <<frames, maxp, delivered, hist>>
+Keep == UNCHANGED <<frames, ends, maxp, delivered, hist>>
 
 \* ---- the reader (FramedRead reads only after decode has answered None)
 Read(n) ==
     /\ mode = "read"
-    /\ n >= 1 /\ n <= maxp /\ delivered + n <= Total(frames)
+    /\ n >= 1 /\ n <= maxp /\ delivered + n <= TotalLen
     /\ delivered' = delivered + n
     /\ mode' = "decode"
     /\ hist' = IF RecordHist THEN Append(hist, n) ELSE hist
     /\ lastAct' = [k |-> "read", n |-> n]
-    /\ UNCHANGED <<frames, maxp, consumed, fi, ai, ao, emitted, synced>>
+    /\ UNCHANGED <<frames, ends, maxp, consumed, fi, ai, ao, emitted, synced>>
 
 \* ---- Decoder::decode, by outcome
 \* the frame is not complete: Ok(None); fixed parts are not advanced over, a streamed body may be
 DecodeWait ==
     /\ mode = "decode" /\ synced /\ fi <= Len(frames)
-    /\ \E x \in 0..Avail : /\ Choice(x)
-                           /\ LET r == Step(x) IN
-                              /\ r.r = "none"
-                              /\ consumed' = consumed + r.c
-                              /\ ai' = r.ai /\ ao' = r.ao
-                              /\ lastAct' = [k |-> "dec", r |-> "none", c |-> r.c, m |-> 0]
+    /\ LET r == Step IN
+       /\ r.r = "none"
+       \* an incremental inner decoder may take any part of an incomplete streamed body
+       /\ \E x \in 0..(IF r.ux THEN r.avs ELSE 0) :
+             /\ consumed' = consumed + r.c + x
+             /\ ai' = r.ai /\ ao' = r.ao + x
+             /\ lastAct' = [k |-> "dec", r |-> "none", c |-> r.c + x, m |-> 0]
     /\ mode' = "read"
     /\ UNCHANGED <<fi, emitted, synced>> /\ Keep
 
@@ -128,7 +131,7 @@ DecodeWait ==
 \* the state returns to the header of the next frame
 DecodeEmit ==
     /\ mode = "decode" /\ synced /\ fi <= Len(frames)
-    /\ LET r == Step(0) IN
+    /\ LET r == Step IN
        /\ r.r = "some"
        /\ consumed' = consumed + r.c
        /\ lastAct' = [k |-> "dec", r |-> "some", c |-> r.c, m |-> fi]
@@ -140,7 +143,7 @@ DecodeEmit ==
 \* a tag outside the closed set of the codec: Err, no message
 DecodeReject ==
     /\ mode = "decode" /\ synced /\ fi <= Len(frames)
-    /\ LET r == Step(0) IN
+    /\ LET r == Step IN
        /\ r.r = "err"
        /\ consumed' = consumed + r.c
        /\ lastAct' = [k |-> "dec", r |-> "err", c |-> r.c, m |-> 0]
@@ -150,7 +153,7 @@ DecodeReject ==
 \* any answer of a decoder that has read a corrupted length and is no longer synchronised with
 \* the frames: the statement only demands an answer (and that a message costs at least a byte)
 Anything ==
-    \E r \in {"none", "some", "err"}, c \in 0..Avail :
+    \E r \in {"none", "some", "err"}, c \in {0, Min(1, Avail), Avail} :
           /\ (r = "some" => c > 0)
           /\ consumed' = consumed + c
           /\ lastAct' = [k |-> "dec", r |-> r, c |-> c, m |-> 0]
@@ -159,7 +162,7 @@ Anything ==
 \* the call that can see the corrupted length
 DecodeDesync ==
     /\ mode = "decode" /\ synced /\ fi <= Len(frames)
-    /\ Step(0).r = "lost"
+    /\ Step.r = "lost"
     /\ Anything
     /\ synced' = FALSE
     /\ UNCHANGED <<fi, ai, ao, emitted>> /\ Keep
@@ -178,18 +181,18 @@ DecodeIdle ==
 
 \* ---- Decoder::decode_eof after the last piece: nothing is left, Ok(None)
 Eof ==
-    /\ mode = "read" /\ synced /\ delivered = Total(frames)
+    /\ mode = "read" /\ synced /\ delivered = TotalLen
     /\ lastAct' = [k |-> "eof", r |-> "none", c |-> 0, m |-> 0]
     /\ mode' = "done"
     /\ UNCHANGED <<consumed, fi, ai, ao, emitted, synced>> /\ Keep
 
 EofLost ==
-    /\ mode = "read" /\ ~synced /\ delivered = Total(frames)
+    /\ mode = "read" /\ ~synced /\ delivered = TotalLen
     /\ \E r \in {"none", "err"} : lastAct' = [k |-> "eof", r |-> r, c |-> 0, m |-> 0]
     /\ mode' = "done"
     /\ UNCHANGED <<consumed, fi, ai, ao, emitted, synced>> /\ Keep
 
-ReadSome == \E n \in 1..Total(frames) : Read(n)
+ReadSome == \E n \in 1..Min(maxp, TotalLen - delivered) : Read(n)
 
 Next == \/ ReadSome
         \/ DecodeWait \/ DecodeEmit \/ DecodeReject \/ DecodeDesync \/ DecodeLost \/ DecodeIdle
@@ -200,27 +203,27 @@ Spec == Init /\ [][Next]_vars /\ WF_vars(Next)
 -----------------------------------------------------------------------------
 (* P - the property, stated over the observable part of the state          *)
 
-TypeOK == /\ delivered \in 0..Total(frames)
+TypeOK == /\ delivered \in 0..TotalLen
           /\ consumed \in 0..delivered
           /\ emitted \in 0..Len(frames)
           /\ mode \in {"read", "decode", "done", "failed"} /\ synced \in BOOLEAN
 
 \* "a decoder never consumes bytes belonging to the next frame"
-NoOverrun == synced => consumed <= End(frames, emitted + 1)
+NoOverrun == synced => consumed <= EndAt(emitted + 1)
 
 \* "decodes to exactly what was encoded": message k is produced by the call that consumes the last
 \* byte of frame k, in order, nothing in between
 ExactAtEmit == (lastAct.k = "dec" /\ lastAct.r = "some" /\ synced) =>
                     /\ lastAct.m = emitted
-                    /\ consumed = End(frames, emitted)
+                    /\ consumed = EndAt(emitted)
                     /\ lastAct.c > 0
 
 \* "for any way the byte stream is split between reads": when the decoder asks for more bytes, no
 \* complete frame is left undecoded in the buffer
-Prompt == (mode = "read" /\ synced) => \A k \in 1..Len(frames) : (End(frames, k) <= delivered) => emitted >= k
+Prompt == (mode = "read" /\ synced) => \A k \in 1..Len(frames) : (ends[k] <= delivered) => emitted >= k
 
 \* at the end of a well formed stream everything was produced and nothing is left
-EofClean == (mode = "done" /\ NumBad(frames) = 0) => (emitted = Len(frames) /\ consumed = Total(frames))
+EofClean == (mode = "done" /\ NumBad(frames) = 0) => (emitted = Len(frames) /\ consumed = TotalLen)
 
 \* "corrupt tags ... produce an error rather than ... a silently wrong message"
 NoWrongMessage == \A k \in 1..Len(frames) : (Bad(k) = "tag") => emitted < k
